@@ -98,8 +98,37 @@ def run(ctx):
                 if bad:
                     viol.append({"input_hex": t.hex(), "input": t.decode("latin-1"), "history_hex": [damaged.hex()],
                                  "what": "after a rejected parse of %r on the same Parser, the result tree differs from the script as written: %s" % (damaged.decode("latin-1")[-50:], bad)})
+    # a second Parser at work while the first is in the middle of a script (a registered command whose completion hook parses
+    # another script, as an include-like extension would): the outer tree must still be the outer script
+    nested = 0
+
+    class IncludeverifCommand(commands.ActionCommand):
+        args_definition = [{"name": "script", "type": ["string"], "required": True}]
+        helper = b""
+
+        def complete_cb(self):
+            Parser().parse(IncludeverifCommand.helper)
+    commands.add_commands(IncludeverifCommand)
+    outers = [b'includeverif "h";\ndiscard;\nkeep;\n', b'if true { includeverif "h"; stop; }\nkeep;', b'includeverif "h"; includeverif "h"; redirect "a@b.c";']
+    for outer in outers:
+        IncludeverifCommand.helper = b""
+        p0 = Parser()
+        ok0 = p0.parse(outer)
+        base = oracle_generic.project_result(p0.result, commands) if ok0 else None
+        for n in list(range(0, 70, 3)) + [200, 5000]:
+            IncludeverifCommand.helper = (b"keep; " * (n // 6 + 1))[:n] if n % 2 == 0 else b'if header "a" "' + b"x" * n + b'" { keep; }'
+            pn = Parser()
+            okn = pn.parse(outer)
+            nested += 1
+            got = oracle_generic.project_result(pn.result, commands) if okn else None
+            if okn != ok0 or got != base:
+                viol.append({"input_hex": outer.hex(), "input": outer.decode("latin-1"), "nested_hex": IncludeverifCommand.helper.hex()[:200],
+                             "what": "another Parser parsing a %d-byte script in the middle of this one changed the result: %r vs %r" % (
+                                 len(IncludeverifCommand.helper), (okn, got), (ok0, base))})
+                break
+    IncludeverifCommand.helper = b""
     fresh, known = split_known("C03", viol, matcher)
-    res = std_result(rec, info, fresh, known, RULE, {"accepted_checked": nacc, "reused_parser_checked": nreuse})
+    res = std_result(rec, info, fresh, known, RULE, {"accepted_checked": nacc, "reused_parser_checked": nreuse, "nested_parse_checked": nested})
     res["evaluations"] += nreuse
     res["distinct_nontrivial"] = sum(1 for a in set(rec.impl) if a.startswith("accept") and a.count("(") >= 2)
     return res
